@@ -121,19 +121,45 @@ def r3_keys(rep, src):
     m = src.mod(PM)
     n = 0
     for cname in (C10.DUP, C10.NOD):
-        for q, fn in sorted(m.funcs.items()):
-            if not q.startswith(cname + '.') or '.' in q[len(cname) + 1:]:
-                continue
-            normalised = set()
+        meths = {q: fn for q, fn in sorted(m.funcs.items()) if q.startswith(cname + '.') and '.' not in q[len(cname) + 1:]}
+
+        def local_normalised(fn):
+            out = set()
             for st in ast.walk(fn.node):
                 if isinstance(st, ast.Assign) and isinstance(st.value, ast.Call) and norm(st.value.func) == '_unpack_key':
                     t = st.targets[0]
                     if isinstance(t, ast.Tuple) and isinstance(t.elts[0], ast.Name):
-                        normalised.add(t.elts[0].id)
+                        out.add(t.elts[0].id)
                 if isinstance(st, ast.Assign) and isinstance(st.targets[0], ast.Name) and norm(st.value).endswith('.field_name'):
-                    normalised.add(st.targets[0].id)
+                    out.add(st.targets[0].id)
                 if isinstance(st, (ast.For, ast.comprehension)) and isinstance(st.target, ast.Name) and '_kvpair_order' in norm(st.iter):
-                    normalised.add(st.target.id)
+                    out.add(st.target.id)
+            return out
+        norm_of = {q: local_normalised(fn) for q, fn in meths.items()}
+        # a parameter of a private helper of the class is a case-insensitive key when every call of the helper inside the class hands
+        # it one (fixpoint over the helpers)
+        changed = True
+        while changed:
+            changed = False
+            for q, fn in meths.items():
+                mname = q[len(cname) + 1:]
+                if not mname.startswith('_') or mname.startswith('__'):
+                    continue
+                ps = [a.arg for a in fn.node.args.args][1:]
+                calls = [(cq, c) for cq, cf in meths.items() for c in ast.walk(cf.node) if isinstance(c, ast.Call) and norm(c.func) == 'self.' + mname]
+                if not calls:
+                    continue
+                for i, p_ in enumerate(ps):
+                    if p_ in norm_of[q] or any(isinstance(n_, ast.Name) and n_.id == p_ and isinstance(n_.ctx, ast.Store) for n_ in ast.walk(fn.node)):
+                        continue
+                    def arg_ok(cq, c, i=i, p_=p_):
+                        a_ = c.args[i] if i < len(c.args) else next((k_.value for k_ in c.keywords if k_.arg == p_), None)
+                        return a_ is not None and ((isinstance(a_, ast.Name) and a_.id in norm_of[cq]) or norm(a_).endswith('.field_name'))
+                    if all(arg_ok(cq, c) for cq, c in calls):
+                        norm_of[q].add(p_)
+                        changed = True
+        for q, fn in meths.items():
+            normalised = norm_of[q]
             for node in ast.walk(fn.node):
                 key = None
                 if isinstance(node, ast.Subscript) and norm(node.value) == 'self._kvpair_elements':
